@@ -24,7 +24,12 @@ RULE = ('correlations with 0-15 Cp points, H/S present / absent / 0.0 / '
         'Non-trivial = a (correlation, unit choice) whose text was reloaded '
         'by both routes and compared field by field; distinct by data+units.'
         ' Construction forms: Python floats, numpy scalars, Python ints, '
-        'references merged in with update(), and the YAML loader. ')
+        'references merged in with update(), and the YAML loader. '
+        ' '
+        'Rounds 17-19: correlations in which one seven-digit tie'
+        ' temperature appears in two fields, in mK / kK / cK / dK / uK / MK'
+        ' / K; copies / pickles formatted; formatting and reading back from'
+        ' four threads.')
 ASSUMPTIONS = [
     '6 significant digits are written for dimensional values and '
     'temperatures: compared to 2e-5 relative; non-dimensional values exactly',
